@@ -3,6 +3,70 @@ import HapVerif.Drv.Common
 namespace HapVerif.C19
 open HapVerif.Drv
 
-def handle (_args : List String) (_impl : String) : Verdict := bad "C19-not-implemented"
+def hexDigit? (c : Char) : Option Nat :=
+  if '0' ≤ c ∧ c ≤ '9' then some (c.toNat - '0'.toNat)
+  else if 'a' ≤ c ∧ c ≤ 'f' then some (c.toNat - 'a'.toNat + 10)
+  else none
+
+def hexPairs : List Char → Option Str
+  | [] => some []
+  | a :: b :: r => do
+    let x ← hexDigit? a
+    let y ← hexDigit? b
+    let t ← hexPairs r
+    pure ((16 * x + y) :: t)
+  | _ => none
+
+/-- `h<hex>` -> bytes -/
+def parseStr (s : String) : Option Str :=
+  match s.toList with
+  | 'h' :: r => hexPairs r
+  | _ => none
+
+def hexChar (n : Nat) : Char := if n < 10 then Char.ofNat (48 + n) else Char.ofNat (87 + n)
+
+def showStr (s : Str) : String :=
+  String.ofList ('h' :: s.flatMap fun b => [hexChar (b / 16), hexChar (b % 16)])
+
+def showList (l : List Str) : String := if l = [] then "-" else ",".intercalate (l.map showStr)
+
+def parseAnn (s : String) : Option (String × Str) :=
+  match s.splitOn ":" with
+  | [l, v] => do pure (l, ← parseStr v)
+  | _ => none
+
+def srcLabel : Option String → String
+  | none => "g"
+  | some l => l
+
+def showWhy : Outcome → String
+  | .skipStar s => "star@" ++ srcLabel s
+  | .skipKw s k => "kw:" ++ showStr k ++ "@" ++ srcLabel s
+  | _ => "-"
+
+def showOutcome (o : Outcome) : String := showList o.lines ++ ";" ++ showWhy o
+
+/-- `<kind> <kws> <global> <anns>` with impl output `<lines>;<why>` -/
+def handle (args : List String) (impl : String) : Verdict :=
+  match args with
+  | [_kind, kws, glob, anns] =>
+    let g : Option Str := if glob = "n" then some [] else parseStr glob
+    match parseList parseStr kws, g, parseList parseAnn anns with
+    | some kws, some glob, some anns =>
+      let m := run kws anns glob
+      let ms := showOutcome m
+      if impl = "PANIC" then { model := ms, agree := false, oracle := some "panic-in-updater" } else
+      match impl.splitOn ";" with
+      | [ls, _why] =>
+        match parseList parseStr ls with
+        | some out =>
+          let sel := mapperGet anns glob
+          { model := ms, agree := ms = impl, oracle := oracle kws anns glob out,
+            -- nothing to filter: no effective keyword or no snippet
+            trivial := lineToSlice sel.value = [] ∨ kws.all (· = []) }
+        | none => bad "impl-lines"
+      | _ => bad "impl-output"
+    | _, _, _ => bad "parse"
+  | _ => bad "C19"
 
 end HapVerif.C19
